@@ -1,15 +1,58 @@
 ------------------------- MODULE MC_RtmpTxnConc -------------------------
 EXTENDS RtmpTxnConc, Json
+Reqs4 == <<2, 3, 4, 5>>
 Reqs3 == <<2, 3, 4>>
 Reqs2 == <<2, 3>>
+Reqs1 == <<2>>
 \* the same id used again by a request whose transport write fails: the first request stays outstanding
 ReqsSame == <<2, 3, 2>>
+ReqsSame2 == <<2, 2>>
+
+\* number of transport writes per request
+P1     == <<1>>
+P2     == <<2>>
+P3     == <<3>>
+P11    == <<1, 1>>
+P12    == <<1, 2>>
+P13    == <<1, 3>>
+P21    == <<2, 1>>
+P22    == <<2, 2>>
+P111   == <<1, 1, 1>>
+P112   == <<1, 1, 2>>
+P121   == <<1, 2, 1>>
+P132   == <<1, 3, 2>>
+P212   == <<2, 1, 2>>
+P2132  == <<2, 1, 3, 2>>
+
+\* the rule: every request is registered before the first of its transport writes
+RegFirst == [i \in 1..Len(Reqs) |-> 0]
+\* named deviation "register-after-write"
+RegAfterWrite == [i \in 1..Len(Reqs) |-> Parts[i]]
+\* named deviation "register-before-flush": the registration sits between filling the buffered writer and its final
+\* flush - right for a request that fits into the buffer (its only transport write is the flush), but a request that
+\* overflowed the buffer has been written through and is on the wire before it is registered
+RegBeforeFlush == [i \in 1..Len(Reqs) |-> IF Parts[i] = 1 THEN 0 ELSE Parts[i]]
+\* not the library's rule, but enough for the property: registered before the COMPLETING transport write
+RegBeforeLast == [i \in 1..Len(Reqs) |-> Parts[i] - 1]
+
 \* Schedules for replay: steps the code cannot be paused between are kept adjacent
-\* (marshal/register/transport-write entry of one WritePacket; read/lookup of one DecodeMessage).
-GenNext == IF widx <= Len(Reqs) /\ wpc \in {"called", "registered"} /\ RegisterFirst
+\* (marshal/register/entry of the FIRST transport write of one WritePacket; read/lookup of one DecodeMessage).
+\* Between two transport writes of one request the writer sits in the transport: everything else can happen there.
+GenNext == IF widx <= Len(Reqs) /\ wpc = "busy" /\ wparts = 0
            THEN W_Register \/ W_TWrite
            ELSE IF rcur # 0 THEN R_Lookup ELSE Next
-McView == <<widx, wpc, pending, written, nresp, inbox, rcur, results>>
+McView == <<widx, wpc, wparts, wreg, pending, written, nresp, inbox, rcur, rreset, results>>
 GenSpec == Init /\ [][GenNext]_vars
-Emit == Done => PrintT(<<"CASE", ToJson([sched |-> sched, results |-> results, reqs |-> Reqs, dups |-> Dups, failed |-> FailedIds])>>)
+Case == [sched |-> sched, results |-> results, reqs |-> Reqs, parts |-> Parts, dups |-> Dups, failed |-> FailedIds]
+Emit == Done => PrintT(<<"CASE", ToJson(Case)>>)
+
+\* the size dimension: every schedule is emitted once per (request size, output chunk size) - sizes below / around /
+\* far above a write buffer of a few KB (up to several times a 64 KB one), chunk sizes default / one buffer / larger than
+\* most requests / larger than every request. The request with
+\* the most transport writes in the model is the sized one; the specification does not say how many transport writes a
+\* size takes (that is the implementation's buffering), the replayer maps the model's parts onto the writes it sees.
+Sizes  == {300, 3000, 4000, 4096, 4200, 8000, 8300, 12500, 20000, 70000, 140000, 300000}
+Chunks == {128, 4096, 65536, 1048576}
+EmitSized == Done => \A s \in Sizes : \A c \in Chunks :
+                PrintT(<<"CASE", ToJson(Case @@ [size |-> s, chunk |-> c])>>)
 =============================================================================
